@@ -1384,7 +1384,33 @@ def check_gate(ck, facts, partial=False):
                             elif rs.path(ini.get("obj")) != rs.path(mo):
                                 problems.append((sc.get("l"), "buffer %s is not created by the mirror that scatters it" % render(buf)))
                             wr = [m for m in calls_of(comp) if m.get("k") == "MCall" and rs.path(m.get("obj")) == rs.path(buf) and not m.get("cconst") and cfg.stmt_dominates(m["i"], sc["i"])]
-                            if not wr:
+                            # a mirror gather INTO the buffer is a writer as well: the buffer then holds the values of the gathered vector at the mirror's dofs
+                            gw = [m for m in calls_of(comp) if m.get("k") == "MCall" and callee_name(m) == "gather" and "Mirror" in (m.get("ccls") or "") and cfg.stmt_dominates(m["i"], sc["i"])
+                                  and (dfl.arg_by_param(m, "buffer") if dfl.arg_by_param(m, "buffer") is not None else (m.get("a") or [None])[0]) is not None
+                                  and rs.path(dfl.arg_by_param(m, "buffer") if dfl.arg_by_param(m, "buffer") is not None else m["a"][0]) == rs.path(buf)]
+                            last_w = None
+                            for m in wr + gw:
+                                if last_w is None or cfg.stmt_dominates(last_w["i"], m["i"]):
+                                    last_w = m
+                            if last_w is not None and last_w in gw:
+                                src = dfl.arg_by_param(last_w, "vector") if dfl.arg_by_param(last_w, "vector") is not None else (last_w["a"][1] if len(last_w.get("a", [])) > 1 else None)
+                                sp_ = rs.path(src) if src is not None else None
+                                if src is not None and field_of(rs, src) == freqs_f:
+                                    problems.append((last_w.get("l"), "the buffer %s that is added to %s is gathered from %s itself (%s): the contribution of a mirror then contains what the mirrors "
+                                                     "processed before it have already added — a dof shared by m >= 3 patches gets multiplicity 2^(m-1) instead of m" % (
+                                                         render(buf), freqs_f, freqs_f, render(last_w)[:60])))
+                                elif sp_ is not None and len(sp_.steps) == 1 and sp_.steps[0][0] == "local":
+                                    # gathered from a local vector: all ones iff that vector is formatted to 1 and never modified afterwards
+                                    lw = [m for m in calls_of(comp) if m.get("k") == "MCall" and rs.path(m.get("obj")) == sp_ and not m.get("cconst")]
+                                    others_ = [u for u in dfl.unmodelled_mutable_uses(comp, rs, sp_, modelled=("format",))]
+                                    if len(lw) == 1 and callee_name(lw[0]) == "format" and lw[0].get("a") and is_lit_one(rs, lw[0]["a"][0]) and cfg.stmt_dominates(lw[0]["i"], last_w["i"]) \
+                                            and not others_ and not dfl.enclosing_loops(comp, par, lw[0]):
+                                        pass
+                                    else:
+                                        unknown.append("buffer %s is gathered from %s, whose contents are not understood" % (render(buf), render(src)))
+                                else:
+                                    unknown.append("buffer %s is gathered from %s, whose contents are not understood" % (render(buf), render(src)))
+                            elif not wr:
                                 unknown.append("buffer %s is not filled by a member call before it is scattered" % render(buf))
                             elif not (callee_name(wr[-1]) == "format" and wr[-1].get("a")):
                                 unknown.append("buffer %s is filled by %s, which is not modelled" % (render(buf), render(wr[-1])[:40]))
@@ -2380,6 +2406,199 @@ def check_const_alias(ck, facts):
 
 
 # =====================================================================================================
+# a global container is (gate pointer(s), local container): becoming a clone / conversion of another one transfers every part
+# =====================================================================================================
+
+def check_global_copy(ck, facts):
+    """Global::{Vector, Matrix, Filter}::clone(other[, mode]) / convert(..., other): members that make *this a clone / conversion of another global container.
+    The data members of the class (read from the initialiser list of its fullest constructor) are the gate pointer(s) and the local container; a member that
+    takes over one of them from `other` must define ALL of them (whole-object assignment `*this = ...`, or every member assigned / cloned / converted), otherwise
+    the object keeps a stale part: a Global::Vector whose local data was cloned but whose gate pointer is still null / the old one computes dot products,
+    norms and synchronisations purely locally (every run with more than one process)."""
+    rule = "E1.global-copy-complete"
+    by_cls = {}
+    for f in facts.functions:
+        if f.tk != "pattern" and strip_targs(f.cls) in ("FEAT::Global::Vector", "FEAT::Global::Matrix", "FEAT::Global::Filter"):
+            by_cls.setdefault(f.cls, []).append(f)
+    for cls, fns in sorted(by_cls.items()):
+        ctors = [f for f in fns if f.d.get("ctor") and f.d.get("inits")]
+        fields = []
+        for f in ctors:
+            names = [i_.get("member") for i_ in f.d["inits"] if i_.get("member")]
+            if len(names) > len(fields):
+                fields = names
+        accessor = {}
+        for f in fns:
+            rets = [n for n in dfl.own_walk(f.body) if n.get("k") == "Return" and n.get("e") is not None]
+            if len(rets) == 1 and not f.params and this_field(rets[0]["e"]) in fields:
+                accessor[f.name] = this_field(rets[0]["e"])
+        base = strip_targs(cls)
+        for f in fns:
+            if f.name not in ("clone", "convert") or f.d.get("static") or f.cfg is None:
+                continue
+            others = [p_ for p_ in f.params if re.search(r"FEAT::Global::(Vector|Matrix|Filter)<", f.type(p_["t"])) and f.type(p_["t"]).strip().endswith("&")]
+            if not others:
+                continue
+            key = "%s::%s/%d" % (ckey(cls), f.name, len(f.params))
+            if not fields:
+                ck.incomplete(rule, "%s: data members of the class not recognised (no constructor with an initialiser list)" % key)
+                continue
+            rs = Resolver(f)
+            od = others[0]["d"]
+            pds = {p_["d"] for p_ in f.params}
+
+            def own_field(n):
+                """data member of *this an lvalue denotes (directly or through an accessor of the class), 'ALL' for *this, else None"""
+                if n is None:
+                    return None
+                st = rs.path(n).steps
+                if st == (("this",), ("deref",)) or (n.get("k") == "Un" and n.get("op") == "*" and n["e"].get("k") == "This"):
+                    return "ALL"
+                if len(st) >= 2 and st[0] == ("this",):
+                    if st[1][0] == "field" and st[1][1] in fields:
+                        return st[1][1]
+                    if st[1][0] == "call" and st[1][1] in accessor:
+                        return accessor[st[1][1]]
+                return None
+
+            def from_args(e):
+                return any(x.get("k") == "Ref" and x.get("dk") == "param" and x.get("d") in pds for x in walk(e)) if e is not None else False
+            written = {}
+            for n in dfl.own_nodes(f):
+                k = n.get("k")
+                lhs = rhs = None
+                if k == "Assign" and n.get("op") == "=":
+                    lhs, rhs = n["lhs"], n["rhs"]
+                elif k == "OpCall" and n.get("op") == "=" and len(n.get("a", [])) == 2:
+                    lhs, rhs = n["a"]
+                elif k == "MCall" and not n.get("cconst") and n.get("a") and callee_name(n) in ("clone", "convert", "copy", "assign"):
+                    pr_ = dfl.parents(f).get(id(n))
+                    if pr_ is not None and pr_[0].get("k") in ("Block", "If", "For", "While"):
+                        lhs, rhs = n.get("obj"), {"k": "Block", "s": list(n["a"])}
+                if lhs is None:
+                    continue
+                fld = own_field(lhs)
+                if fld is not None and from_args(rhs):
+                    for x in (fields if fld == "ALL" else [fld]):
+                        written.setdefault(x, n)
+            if not written:
+                continue            # not a member that takes parts over from another object
+            missing = [x for x in fields if x not in written]
+            opaque = [c for c in calls_of(f) if c.get("callee") not in dfl.MOVE_FNS and c.get("callee") != "FEAT::assertion" and (
+                (c.get("k") == "MCall" and (c.get("obj") is None or c["obj"].get("k") == "This") and not c.get("cconst") and callee_name(c) not in accessor) or
+                any(a_.get("k") == "This" or (a_.get("k") == "Un" and a_.get("op") == "*" and a_["e"].get("k") == "This") for a_ in c.get("a", [])) or
+                dfl.lambda_body_of(rs, c) is not None)]
+            if missing and opaque:
+                ck.incomplete(rule, "%s: data member(s) %s are not defined directly; %s is not modelled" % (key, ", ".join(missing), render(opaque[0])[:50]))
+                continue
+            ck.ob(rule, key, not missing,
+                  ("takes over %s from its argument(s) but leaves %s of *this unchanged (the class consists of %s): the object keeps the stale / null %s" % (
+                      ", ".join(sorted(written)), ", ".join(missing), ", ".join(fields), ", ".join(missing))) if missing else
+                  "every data member (%s) is defined from the arguments" % ", ".join(fields), f.file, (list(written.values())[0].get("l") if written else f.line))
+
+
+# =====================================================================================================
+# tuple mirrors: component k of a tuple vector lives at buffer offset (own offset + sizes of the components before it), for packing AND unpacking
+# =====================================================================================================
+
+def check_tuple_mirror(ck, facts):
+    """LAFEM::TupleMirror<First, Rest...>::{gather, scatter_axpy, buffer_size} (kernel/lafem/tuple_mirror.hpp — outside the anchor list, but every tuple gate packs and
+    unpacks its messages through it): the sub-mirror of the first component works at the function's own buffer offset, the remaining components at
+    own offset + first.buffer_size(vector.first()); buffer_size = first + rest.  gather and scatter_axpy therefore address the same buffer cells (what one process
+    packs is what its neighbour unpacks).  A recursion step that drops its incoming offset is invisible for 2 components at offset 0 and wrong for >= 3 components
+    and for every non-zero offset (muxer child slices)."""
+    rule = "E2.tuple-mirror-layout"
+    for fn in facts.functions:
+        if fn.tk == "pattern" or strip_targs(fn.cls) != "FEAT::LAFEM::TupleMirror" or fn.name not in ("gather", "scatter_axpy", "buffer_size") or fn.cfg is None:
+            continue
+        ncomp = len(re.findall(r"VectorMirror<", fn.cls)) or fn.cls.count(",") + 1
+        key = "%s::%s" % (short(re.sub(r"LAFEM::VectorMirror<[^<>]*>", "VectorMirror", fn.cls.replace("FEAT::", ""))), fn.name)
+        rs = Resolver(fn)
+        vecp = [p_ for p_ in fn.params if "TupleVector<" in fn.type(p_["t"])]
+        offp = [p_ for p_ in fn.params if p_["n"] == "buffer_offset"] or [p_ for p_ in fn.params if re.sub(r"const |&", "", fn.type(p_["t"])).strip() in ("FEAT::Index", "unsigned long", "unsigned int")][-1:]
+        if len(vecp) != 1 or (fn.name != "buffer_size" and len(offp) != 1):
+            ck.incomplete(rule, "%s: tuple vector / buffer offset parameters not recognised" % key)
+            continue
+        vd = vecp[0]["d"]
+
+        def part_of(n):
+            """'first' | 'rest' if n is vector.first() / vector.rest() of the tuple vector parameter"""
+            st = rs.path(n).steps if n is not None else ()
+            if len(st) == 2 and st[0] == ("param", vd) and st[1][0] == "call" and st[1][1] in ("first", "rest"):
+                return st[1][1]
+            return None
+
+        def sub_of(n):
+            """name of the sub-mirror member of *this an expression denotes"""
+            return field_of(rs, n)
+
+        def terms(e, depth=0):
+            """sum normal form: list of ('own',) | ('size', sub-mirror member, vector part) | ('int', v) | ('?', text)"""
+            e = unwrap_val(rs, e) if e is not None else None
+            if e is None or depth > 8:
+                return [("?", "-")]
+            if e.get("k") == "Bin" and e.get("op") == "+":
+                return terms(e["lhs"], depth + 1) + terms(e["rhs"], depth + 1)
+            if e.get("k") == "Ref" and e.get("dk") == "param" and offp and e.get("d") == offp[0]["d"]:
+                return [("own",)]
+            if e.get("k") == "Int":
+                return [] if str(e.get("v")) == "0" else [("int", str(e.get("v")))]
+            if e.get("k") == "MCall" and callee_name(e) == "buffer_size" and sub_of(e.get("obj")) is not None and len(e.get("a", [])) == 1 and part_of(e["a"][0]) is not None:
+                return [("size", sub_of(e["obj"]), part_of(e["a"][0]))]
+            return [("?", render(e)[:40])]
+        if fn.name == "buffer_size":
+            rets = [n for n in dfl.own_walk(fn.body) if n.get("k") == "Return" and n.get("e") is not None]
+            t = sorted(terms(rets[0]["e"])) if len(rets) == 1 else [("?", "returns")]
+            if any(x[0] == "?" for x in t):
+                ck.incomplete(rule, "%s: returned size %s not understood" % (key, render(rets[0]["e"])[:60] if rets else "?"))
+                continue
+            parts = sorted(x[2] for x in t if x[0] == "size")
+            subs = {x[1] for x in t if x[0] == "size"}
+            ok = len(t) == len(parts) and parts in (["first"], ["first", "rest"]) and len(subs) == len(parts)
+            ck.ob(rule, key, ok, "buffer size = %s" % " + ".join("%s.buffer_size(vector.%s())" % (x[1], x[2]) if x[0] == "size" else str(x) for x in t) +
+                  ("" if ok else " — expected the sum of the sizes of every component, each by its own sub-mirror"), fn.file, fn.line)
+            continue
+        subcalls = [c for c in calls_of(fn) if c.get("k") == "MCall" and callee_name(c) == fn.name and sub_of(c.get("obj")) is not None]
+        info = {}
+        bad_shape = None
+        for c in subcalls:
+            va = dfl.arg_by_param(c, "vector")
+            off = dfl.arg_by_param(c, "buffer_offset")
+            pt_ = part_of(va)
+            if pt_ is None or off is None or pt_ in info:
+                bad_shape = "sub-call %s not understood" % render(c)[:70]
+                break
+            info[pt_] = (c, sorted(terms(off)), sub_of(c.get("obj")))
+        if bad_shape or not info or sorted(info) not in (["first"], ["first", "rest"]):
+            ck.incomplete(rule, "%s: %s" % (key, bad_shape or "%d sub-mirror calls of the same operation (expected first [+ rest])" % len(subcalls)))
+            continue
+        problems, unknown = [], []
+        c1, t1, s1 = info["first"]
+        if any(x[0] == "?" for x in t1):
+            unknown.append("offset %s of the first component not understood" % render(dfl.arg_by_param(c1, "buffer_offset"))[:50])
+        elif t1 != [("own",)]:
+            problems.append((c1.get("l"), "the first component is %s at offset %s instead of the function's own buffer offset" % (
+                "packed" if fn.name == "gather" else "unpacked", render(dfl.arg_by_param(c1, "buffer_offset"))[:50])))
+        if "rest" in info:
+            c2, t2, s2 = info["rest"]
+            if s2 == s1:
+                problems.append((c2.get("l"), "both sub-calls are executed by the sub-mirror %s" % s1))
+            if any(x[0] == "?" for x in t2):
+                unknown.append("offset %s of the remaining components not understood" % render(dfl.arg_by_param(c2, "buffer_offset"))[:50])
+            elif t2 != sorted([("own",), ("size", s1, "first")]):
+                problems.append((c2.get("l"), "the remaining components are %s at offset %s instead of (own buffer offset + %s.buffer_size(vector.first())): with a non-zero incoming offset "
+                                 "(third and later components of a tuple, muxer child slices) the data is %s where the other side does not %s it" % (
+                                     "packed" if fn.name == "gather" else "unpacked", render(dfl.arg_by_param(c2, "buffer_offset"))[:70], s1,
+                                     "written" if fn.name == "gather" else "read", "read" if fn.name == "gather" else "write")))
+        if unknown and not problems:
+            ck.incomplete(rule, "%s: %s" % (key, "; ".join(unknown)))
+            continue
+        ck.ob(rule, key, not problems, "; ".join("line %s: %s" % p_ for p_ in problems) or
+              "first component at the own buffer offset%s" % ("; remaining components at own offset + %s.buffer_size(vector.first())" % s1 if "rest" in info else ""),
+              fn.file, problems[0][0] if problems else fn.line)
+
+
+# =====================================================================================================
 # tuple gates: the system gate is built component by component from the component gates
 # =====================================================================================================
 
@@ -2581,6 +2800,14 @@ def declare_rules(ck):
     ck.rule("E2.const-input-not-aliased", "a local obtained as in.clone(mode) from an object reachable through a const parameter / const this and modified afterwards "
             "(from_1_to_0, sync, scale, passed as output ...) owns its value array: mode is Deep / Weak / Layout / Allocate, never Shallow (which shares the values with the const "
             "input). Broken => the caller's input vector / matrix is changed in place on every multi-process call", 6)
+    ck.rule("E2.tuple-mirror-layout", "LAFEM::TupleMirror::{gather, scatter_axpy, buffer_size} (kernel/lafem/tuple_mirror.hpp, the packing layer of every tuple gate): the first component is "
+            "packed / unpacked at the function's own buffer offset, the remaining components at own offset + first.buffer_size(vector.first()), buffer_size is the sum over all "
+            "components — gather and scatter_axpy address the same buffer cells. Broken (recursion step drops the incoming offset) => wrong for tuples with >= 3 components and for "
+            "every non-zero offset (muxer child slices)", 12)
+    ck.rule("E1.global-copy-complete", "Global::{Vector, Matrix, Filter}::clone(other, mode) / convert(..., other): a member that makes *this a clone / conversion of another global "
+            "container defines every data member of the class (gate pointer(s) and local container; read from the constructor's initialiser list) — by whole-object assignment or "
+            "member by member. Broken (only the local data cloned) => the gate pointer stays null / stale: dot, norm2, max/min and sync of the clone are purely local for every "
+            "run with more than one process", 6)
     ck.rule("E1.tuple-gate-components", "Control::Asm::build_gate_tuple (2 and 3 components): for every component k the ranks of gate_k join the neighbour set the system mirrors are "
             "pushed for (union over all components), sub-mirror at<k>() of the system mirror of neighbour `rank` is cloned from gate_k.get_mirrors()[i] under the guard "
             "gate_k.get_ranks()[i] == rank, and at<k>() of the template vector from gate_k.get_freqs(). Broken (a component's ranks not added) => for component spaces with different "
@@ -2613,7 +2840,7 @@ def analyse(ck, facts, label):
     # with such same-file helpers inlined (parameters bound, CFG spliced); check_requests / check_coherence / check_exchange_order follow helpers themselves
     inl = norm.InlinedFacts(facts, inline_select)
     from checks import c18 as _c18
-    for rule_fn in (check_global_matrix, check_gate, check_global_vector, check_reductions, check_muxer, check_const_alias):
+    for rule_fn in (check_global_matrix, check_gate, check_global_vector, check_reductions, check_muxer, check_const_alias, check_global_copy):
         norm.run_with_inlining(ck, rule_fn, facts, inl)
     check_exchange_order(ck, facts)
     norm.run_with_inlining(ck, _c18.check_global_transfer, facts, inl)
@@ -2625,13 +2852,14 @@ def run(tier):
     facts = load(ck)
     analyse(ck, facts, "double,u64")
     try:
-        fg = featlib.extract("tu/c13_gate_asm.cpp", files=R("control/asm/gate_asm.hpp"), mpi=True)
+        fg = featlib.extract("tu/c13_gate_asm.cpp", files=R("control/asm/gate_asm.hpp") + "|" + R("kernel/lafem/tuple_mirror.hpp"), mpi=True)
         ck.tu(fg)
         for e in fg.errors_outside_repo():
             ck.incomplete("E1.tuple-gate-components", "driver tu/c13_gate_asm.cpp no longer matches the API: %s:%s %s" % (e["file"], e["line"], e["msg"]))
         for e in fg.errors_in_repo()[:3]:
             ck.incomplete("E1.tuple-gate-components", "front-end error while instantiating build_gate_tuple: %s:%s %s" % (rel(e["file"]), e["line"], e["msg"]))
         norm.run_with_inlining(ck, check_gate_tuple, fg, norm.InlinedFacts(fg, inline_select))
+        norm.run_with_inlining(ck, check_tuple_mirror, fg, norm.InlinedFacts(fg, inline_select))
     except featlib.AnalysisBroken as e:
         ck.incomplete("E1.tuple-gate-components", "tu/c13_gate_asm.cpp: MPI parse failed: %s" % str(e)[:200])
     if tier != "quick":
